@@ -35,14 +35,24 @@ func runSeqCase(c seqCase) (outcome string, calls int64, err error) {
 	var svc *Service
 	mk := func() error {
 		w.handlers = nil
-		s, e := NewService(pPruner{w}, w.window(), pStore{w}, w.ds, pBT, WithPruneCycle(pCycle))
+		var s *Service
+		var e error
+		if pe := pGuard("load", func() {
+			s, e = NewService(pPruner{w}, w.window(), pStore{w}, w.ds, pBT, WithPruneCycle(pCycle))
+		}); pe != nil {
+			return pe
+		}
 		if e != nil {
 			return fmt.Errorf("harness: NewService: %v", e)
 		}
 		s.ctx, s.cancel = ctx, cancel
-		s.checkpointMu.Lock()
-		e = s.loadCheckpoint(ctx)
-		s.checkpointMu.Unlock()
+		if pe := pGuard("load", func() {
+			s.checkpointMu.Lock()
+			defer s.checkpointMu.Unlock()
+			e = s.loadCheckpoint(ctx)
+		}); pe != nil {
+			return pe
+		}
 		if e != nil {
 			return fmt.Errorf("harness: loadCheckpoint: %v", e)
 		}
@@ -61,7 +71,11 @@ func runSeqCase(c seqCase) (outcome string, calls int64, err error) {
 		w.cycleLog = w.cycleLog[:0]
 		w.onBound = func() { nonTerm = true; cancel() }
 		before := svc.checkpoint.LastPrunedHeight
-		svc.prune(ctx)
+		if pe := pGuard("cycle", func() { svc.prune(ctx) }); pe != nil {
+			// the instance is poisoned (it may still hold its mutex): the case ends here and the
+			// next case builds a fresh one
+			return pe
+		}
 		if nonTerm {
 			detail := nonTermDetail(w.cycleLog, cfg.Batch)
 			return fmt.Errorf("C14/cycle-no-termination/%s: one pruning cycle issued more than %d Prune calls (chain of %d headers, batch limit %d) and was still going; last calls %v",
@@ -198,7 +212,12 @@ func enumSeq(sp seqSpace, deadline time.Time, workers int, report func(c seqCase
 					if stop.Load() {
 						continue
 					}
-					out, n, err := runSeqCase(c)
+					var out string
+					var n int64
+					var err error
+					if pe := pGuard("harness", func() { out, n, err = runSeqCase(c) }); pe != nil {
+						err = fmt.Errorf("harness: panic outside the guarded phases: %v", pe)
+					}
 					cases++
 					calls += n
 					if n > 0 {
